@@ -242,6 +242,7 @@ def run(ctx):
                  tag="register-residue")
     ctx.case(dict(register="unknown stage"), bucket="register")
     handler_cases(ctx, 200 if ctx.thorough else 60)
+    wire_cases(ctx)
 
 
 def handler_cases(ctx, n):
@@ -276,8 +277,13 @@ def handler_cases(ctx, n):
             handles = []
             n_custom = rng.choice([0, 1, 2])
             before = rng.randrange(n_custom + 1)
+            no_response = through_service and n_custom > 0 and rng.random() < 0.35
+            if no_response:
+                for k_ in [k_ for k_ in counts if k_.startswith("svc")]:
+                    del counts[k_]
+                resp = []
             for i in range(n_custom):
-                if through_service and i == before:
+                if through_service and i == before and not no_response:
                     svc.update_new_config(1, "h1", convert_response(resp))
                     tasks.flush()
                 fc = rng.choice(["-1", "2", None])
@@ -287,7 +293,9 @@ def handler_cases(ctx, n):
                 handles.append(svc.add_custom("m.py", 7, args, [], []))
                 counts[handles[-1]] = fc
                 tasks.flush()
-            if through_service:
+            if through_service and no_response:
+                pass            # the service has not answered yet: what was registered in code acts all the same
+            elif through_service:
                 if before == n_custom:
                     svc.update_new_config(1, "h1", convert_response(resp))
                     tasks.flush()
@@ -306,7 +314,8 @@ def handler_cases(ctx, n):
                     got[tp] = got.get(tp, 0) + 1
             want = {tp: (hits if fc == "-1" else min(hits, int(fc) if fc is not None else 1)) for tp, fc in counts.items()}
             j = dict(on_one_line={("service " + k if k.startswith("svc") else "registered"): v for k, v in counts.items()}, hits=hits,
-                     installed="through the service and its listener" if through_service else "directly")
+                     installed=("through the service's listener, before any response of the service" if no_response else
+                                "through the service and its listener") if through_service else "directly")
             ctx.case(j, nontrivial=len(counts) > 1, bucket="handler")
             if got != want:
                 ctx.fail("%d hits of a line carrying %d service tracepoint(s) and %d registered one(s) with fire_count %r: acted %r, "
@@ -315,6 +324,46 @@ def handler_cases(ctx, n):
         finally:
             clock.restore()
             world.clear_pending()
+
+
+def wire_cases(ctx):
+    """A snapshot action results in a snapshot that REACHES the wire: line- and method-placed tracepoints (a method tracepoint has no
+    line of its own), with and without a log message, through build_trigger, the real handler and the real conversion."""
+    from deep.api.tracepoint.trigger import build_trigger
+    from deep.push import convert_snapshot
+    for placement in ("line", "method", "method-with-line-0"):
+        for extra in ({}, {"log_msg": "m {a}"}, {"span": "line"}):
+            world = e2.World(logger=True, spans=1, metrics=0)
+            args = dict({"fire_count": "-1", "fire_period": "0"}, **extra)
+            line = 7
+            if placement != "line":
+                args["method_name"] = "g"
+                line = 0 if placement == "method-with-line-0" else 7
+            trig = build_trigger("tp-wire", "m.py", line, args, ["a"], [])
+            j = dict(placement=placement, args=args)
+            ctx.case(j, nontrivial=True, bucket="wire")
+            if trig is None:
+                ctx.fail("build_trigger could not interpret %r" % (args,), j, kind="history", tag="wire-uninterpreted")
+                continue
+            world.install([trig])
+            fr = e2.mk_frame("/app/m.py", "g", 7, {"a": 1})
+            world.event(fr, "call" if placement != "line" else "line")
+            fr.f_lineno = 8
+            world.event(fr, "line")
+            world.event(fr, "return", None)
+            world.clear_pending()
+            snaps = world.push.snapshots
+            if len(snaps) != 1:
+                ctx.fail("%d snapshots for one hit of a %s tracepoint with %r" % (len(snaps), placement, args), j, kind="history", tag="wire-snapshot-count")
+                continue
+            try:
+                msg = convert_snapshot(snaps[0])
+            except BaseException as e:
+                msg = e
+            if msg is None or isinstance(msg, BaseException) or msg.tracepoint.ID != "tp-wire":
+                ctx.fail("the snapshot of a %s tracepoint cannot be put on the wire (conversion gave %r): the snapshot its arguments ask for "
+                         "never reaches the service" % (placement, msg if not hasattr(msg, "tracepoint") else msg.tracepoint.ID), j,
+                         kind="history", tag="wire-unconvertible")
 
 
 def replay(ctx, data):
